@@ -2,6 +2,7 @@ import Driver.Util
 import ClairModel.Model.Rfc822
 import ClairModel.Model.Dpkg
 import ClairModel.Model.Apk
+import ClairModel.Model.OsRelease
 
 namespace Driver.C02
 open ClairModel.Bytes ClairModel.Rfc822 ClairModel
@@ -51,6 +52,20 @@ def answer (l : String) : String :=
       | none => "bad-op"
   | ["apk", h] => match toBytes h with
       | some b => let l := (Apk.scan b).map showApkPkg; " ".intercalate (s!"ok {l.length}" :: l)
+      | none => "bad-op"
+  | ["osr", h] => match toBytes h with
+      | some b => match OsRelease.parse b with
+        | some m =>
+          let l := sortStrings (m.map fun kv => hexB kv.1 ++ "=" ++ hexB kv.2)
+          " ".intercalate (s!"ok {l.length}" :: l)
+        | none => "err"
+      | none => "bad-op"
+  | ["osd", h] => match toBytes h with
+      | some b => match OsRelease.parse b with
+        | some m =>
+          let d := OsRelease.toDist m
+          "ok " ++ ",".intercalate [hexB d.name, hexB d.did, hexB d.version, hexB d.versionId, hexB d.codeName, hexB d.prettyName]
+        | none => "err"
       | none => "bad-op"
   | ["reset"] => "ok"
   | _ => "bad-op"
